@@ -35,6 +35,36 @@ def same_everywhere(ta, tb, rng, what, res, case, replay_extra):
     return True
 
 
+def model_correspondence(cr, items, impl_tree, res, case, rng):
+    """the Lean model of `_evaluate_internal` (about which C05's theorems are stated) on the same compiled routine and the
+    same assignment: ports, resources, repetition and remaining input parameters of every node must agree"""
+    from .. import model, pipeline
+
+    try:
+        line = "evaluate " + E.croutine_sexp(cr) + " (" + " ".join(f"({k} {E.to_sexp(v)})" for k, v in items) + ")"
+    except ValueError:
+        res.stats["model_evaluate_unsupported_expression"] += 1
+        return
+    r = model.run_driver([line])[0]
+    res.stats["model_vs_impl_compared"] += 1
+    replay = {"qref": case.qref, "assignments_in_order": [[k, E.to_str(v)] for k, v in items]}
+    if r[0] != "ok":
+        res.disagreement("evaluate vs Bartiq.evaluate (outcome)", replay, str(r)[:200], "ok")
+        return
+    m = model.decode_croutine(r[1])
+    diffs = pipeline.compare_trees(impl_tree, m, random.Random(case.seed * 13 + 5), constraints=False)
+
+    def ips(t, mt, path=()):
+        if sorted(t.input_params) != sorted(mt["input_params"]):
+            diffs.append((path, "remaining input_params", sorted(t.input_params), sorted(mt["input_params"])))
+        for (cn, cc), mc in zip(t.children.items(), mt["children"]):
+            ips(cc, mc, path + (cn,))
+    if not diffs:
+        ips(impl_tree, m)
+    if diffs:
+        res.disagreement("evaluate vs Bartiq.evaluate (tree)", replay, [d[3] for d in diffs[:3]], [(list(d[0]), d[1], d[2]) for d in diffs[:3]])
+
+
 def oracle(case, res, extra):
     if case.status != "ok":
         return
@@ -92,6 +122,7 @@ def oracle(case, res, extra):
     if isinstance(first, Exception):
         res.stats["evaluate_raised_" + type(first).__name__] += 1
         return
+    model_correspondence(cr, items, first, res, case, rng)
     # reference: simultaneous substitution, everywhere (ports, resources, all descendants), unassigned untouched
     allnames = set(names) | {"zz"}
     for (path, a), (_, b) in zip(walk(cr), walk(first)):
